@@ -70,6 +70,8 @@ def dump_domain(d):
         "preds": [[k, ws(str(v))] for k, v in d.predicates.items()],
         "funcs": [[k, ws(str(v))] for k, v in d.functions.items()],
         "acts": [[k, action_text(v)] for k, v in d.actions.items()],
+        # the subtype relation as the library answers it: type -> the types of this domain it is a subtype of
+        "sub": [[k, " ".join(b for b, w in d.types.items() if v.is_sub_type(w))] for k, v in d.types.items()],
     }
 
 
